@@ -452,8 +452,8 @@ Theorem flex_terminated_all_done fuel x0 joker0 ta r m :
   all_in_output i (r_x r) = true -> forallb all_operations_done (s_jobs (r_x r)) = true.
 Proof.
   intros C W Fr D H Hout. destruct (flex_reachable _ _ _ _ _ _ C W Fr D H) as [_ [_ [Hod _]]].
-  unfold output_done_b in Hod. unfold all_in_output in Hout. rewrite forallb_forall in *.
-  intros jb Hin. specialize (Hod jb Hin). rewrite (Hout jb Hin) in Hod. exact Hod.
+  unfold all_in_output in Hout. rewrite forallb_forall in *.
+  intros jb Hin. specialize (Hout jb Hin). apply andb_true_iff in Hout. tauto.
 Qed.
 
 End PB.
